@@ -252,6 +252,20 @@ func (r *rewriter) run() {
 	r.analyse()
 	r.rewriteImports()
 	r.rewriteBody()
+	// TryLock makes "the lock is held right now" observable: unlocks become scheduling points
+	usesTry := false
+	ast.Inspect(r.file, func(n ast.Node) bool {
+		if call, ok := n.(*ast.CallExpr); ok {
+			if sel, ok := call.Fun.(*ast.SelectorExpr); ok && (sel.Sel.Name == "TryLock" || sel.Sel.Name == "TryRLock") {
+				usesTry = true
+			}
+		}
+		return true
+	})
+	if usesTry {
+		r.file.Decls = append(r.file.Decls, &ast.FuncDecl{Name: ast.NewIdent("init"), Type: &ast.FuncType{Params: &ast.FieldList{}},
+			Body: &ast.BlockStmt{List: []ast.Stmt{&ast.AssignStmt{Lhs: []ast.Expr{r.vs("UnlockPoints")}, Tok: token.ASSIGN, Rhs: []ast.Expr{ast.NewIdent("true")}}}}})
+	}
 	if r.needVs {
 		r.addImport("_vsched", r.shim+"/vsched")
 	}
